@@ -268,10 +268,33 @@ def recvmax(F, R):
             continue
         b = d.call
         reg = d.arm('Publish')
-        lens = [(bi, t) for bi, t in b.calls_to(r'HashSet::<T, S, A>::len$') if bi in reg and (call_recv_path(b, t, 0) or ('',))[-1] == 'inflight' and 'log' not in t.get('mac', '')]
+        # the counted set: the per-connection HashSet whose len() is tested in the PUBLISH arm (`inflight`, or a set that holds
+        # the ids of publications only)
+        all_lens = [(bi, t, (call_recv_path(b, t, 0) or ('',))[-1]) for bi, t in b.calls_to(r'HashSet::<T, S, A>::len$') if bi in reg and 'log' not in t.get('mac', '')]
+        fields = sorted({f_ for _, _, f_ in all_lens if f_})
+        counted = 'inflight' if 'inflight' in fields or not fields else fields[0]
+        lens = [(bi, t) for bi, t, f_ in all_lens if f_ == counted]
         R.ob('C12.recvmax', '%s|compares inflight.len()' % d.name, len(lens) >= 1, 'no length test of the in-flight id set in the PUBLISH arm')
         from c16 import val_key
-        ins = [(bi, t, ap) for bi, t, ap in d.inflight_calls(b, 'insert') if bi in reg]
+        ins = [(bi, t, ap) for bi, t, ap in d.set_calls(b, 'insert', counted) if bi in reg]
+        if counted != 'inflight':
+            # two-set design: every publication whose id was reserved is counted, and every release of an id releases the count
+            res_ins = [(bi, t, ap) for bi, t, ap in d.inflight_calls(b, 'insert') if bi in reg]
+            pf_sites = [bi for bi, t in d.call_sites(b, 'publish_fn') if bi in reg]
+            cnt_blocks = {bi for bi, t, ap in ins}
+            for rbi, rt, rap in res_ins:
+                rr = call_bool_branch(b, rbi)
+                start = rr[1] if rr and rr[0] != 'discr' else b.blocks[rbi]['term'].get('target', rbi)
+                missed = [x for x in pf_sites if x in b.reachable(start, avoid=cnt_blocks)]
+                R.ob('C12.recvmax', '%s|reserved-publication=>counted' % d.name, bool(cnt_blocks) and not missed,
+                     'a QoS>0 PUBLISH whose id was reserved can reach the handler without being added to the set compared with Receive Maximum: the limit is not enforced for it', b.loc(rbi))
+            for body in d.bodies():
+                rel = [bi for bi, t, ap in d.inflight_calls(body, 'remove')]
+                crel = {bi for bi, t, ap in d.set_calls(body, 'remove', counted)}
+                for x in rel:
+                    ok_rel = bool(crel) and (any(c_ in body.dom.get(x, ()) for c_ in crel) or not (set(body.returns()) & body.reachable_after(x, avoid=crel)))
+                    R.ob('C12.recvmax', '%s|%s|id-released=>count-released' % (d.name, body.path.split('::')[-2] if '{closure' in body.path else body.path.split('::')[-1]), ok_rel,
+                         'a packet id is released without being removed from the set compared with Receive Maximum: completed publications keep counting and the peer is eventually refused with 0x93', body.loc(x))
         len_locals = {t['dest']['l'] for bi, t in lens}
         cmps = []  # (switch block, op, limit key, len_is_lhs)
         zero_tests = []
@@ -323,7 +346,7 @@ def recvmax(F, R):
         want = 'Pub_3_3_4_7' if d.role == 'server' else 'Pub_3_3_4_9'
         R.ob('C12.recvmax', '%s|refusal=%s' % (d.name, want), want in sv, 'SpecViolations used in the PUBLISH arm: %s' % sv)
         # who feeds the set: only the PUBLISH arm
-        allins = d.inflight_calls(b, 'insert')
+        allins = d.set_calls(b, 'insert', counted)
         others = [(bi, t) for bi, t, ap in allins if bi not in reg]
         for bi, t in others:
             arm = [a for a in ('Packet:Subscribe', 'Packet:Unsubscribe') if bi in d.arm(a)]
